@@ -75,7 +75,7 @@ def reduce_mod_sides(p, c=None):
             else:
                 continue
             co = p.coeffs_in(v)
-            if max(co) < q:
+            if not co or max(co) < q:
                 continue
             newp = Poly()
             vp = Poly.var(v)
